@@ -27,6 +27,9 @@ import (
 // The test must print VERIF-REPLAY-FAIL (and fail) when the real function violates the property.
 var phRe = regexp.MustCompile(`\{\{(\w+) ([^}]+)\}\}`)
 
+var heapNameRe = regexp.MustCompile(`\|([^|]+)@0\|`)
+var subNameRe = regexp.MustCompile(`\((sub\.[^ ]+) `)
+
 const replayMaxLen = 4096
 
 var tByte = types.Typ[types.Uint8]
@@ -57,6 +60,18 @@ func tryReplay(E *Engine, cfg *PropConfig, o *Obl, dir string) (string, bool, st
 		w := want{ph: m[0], kind: m[1], name: strings.TrimSpace(m[2])}
 		p := "p." + sanitize(w.name)
 		switch w.kind {
+		case "term":
+			w.terms = []string{w.name}
+			for _, hm := range heapNameRe.FindAllStringSubmatch(w.name, -1) {
+				if _, ok := g.heapSort[hm[1]]; !ok {
+					w.terms = []string{g.idxLit(0)} // location not mentioned by the query: any value will do
+				}
+			}
+			for _, sm := range subNameRe.FindAllStringSubmatch(w.name, -1) {
+				if !g.declared[sm[1]] {
+					w.terms = []string{g.idxLit(0)}
+				}
+			}
 		case "int", "bool":
 			w.terms = []string{p}
 		case "bytes":
@@ -74,11 +89,11 @@ func tryReplay(E *Engine, cfg *PropConfig, o *Obl, dir string) (string, bool, st
 				w.terms = append(w.terms, fmt.Sprintf("(s.at %s %s)", p, idx(k)))
 			}
 		case "stream":
-			if _, ok := g.heapSort["ghost.rin"]; !ok {
+			if _, ok := g.heapSort["ghost.bdata"]; !ok {
 				return "", false, "no ghost stream in the query"
 			}
 			for k := 0; k < 16; k++ {
-				w.terms = append(w.terms, fmt.Sprintf("(select (select |ghost.rin@0| %s) %s)", p, g.add("(select |ghost.rpos@0| "+p+")", idx(k))))
+				w.terms = append(w.terms, fmt.Sprintf("(select (select |ghost.bdata@0| (iface.ref %s)) %s)", p, g.add("(select |ghost.rpos@0| (iface.ref "+p+"))", idx(k))))
 			}
 		default:
 			return "", false, "unknown placeholder kind " + w.kind
@@ -119,7 +134,7 @@ func tryReplay(E *Engine, cfg *PropConfig, o *Obl, dir string) (string, bool, st
 		pos += len(w.terms)
 		var lit string
 		switch w.kind {
-		case "int":
+		case "int", "term":
 			n, ok := smtInt(vs[0])
 			if !ok {
 				return "", false, "unparsable value " + vs[0]
